@@ -163,6 +163,7 @@ class Unit:
         self.func_order = []
         self.work = []
         self.lifted = []          # lifted lambdas
+        self.local_decls = {}     # VarDecl id -> node (locals, for lambda captures)
         self.member_alias = {}; self.alias_names = {}
         self.tmp_counter = 0
         self._index()
@@ -828,8 +829,16 @@ class Unit:
     def e_CXXNewExpr(self, n):
         ct, _ = self.ctype_node(n)
         elem = ct.strip()
-        assert elem.endswith('*'); elem = elem[:-1].strip()
         ks = self.kids(n)
+        if not elem.endswith('*') and not n.get('isArray') and not n.get('isPlacement'):
+            # new of an opaque-handle record: the allocation + constructor is a stub the spec gives a contract
+            ce = None
+            for c in ks:
+                if self.strip_tmp(c)['kind'] == 'CXXConstructExpr': ce = self.strip_tmp(c)
+            args = self.call_args(self.ctor_type(ce), self.kids(ce)) if ce is not None else []
+            self.count_call('v_new__' + elem)
+            return 'v_new__%s(%s)' % (elem, ', '.join(args))
+        assert elem.endswith('*'); elem = elem[:-1].strip()
         if n.get('isPlacement'):
             if self.models:
                 r = self.models.placement_new(self, n)
@@ -872,6 +881,9 @@ class Unit:
         try: ct, _ = self.ctype_node(self.strip(sub) if self.strip(sub).get('type') else sub)
         except Unsupported: ct = ''
         st = self.ctype_node(sub)[0].strip()
+        if not st.endswith('*') and not n.get('isArray'):
+            self.count_call('v_delete__' + st)
+            return 'v_delete__%s(%s)' % (st, x)      # opaque-handle record: stub supplied by the spec
         if st.endswith('*') and st[:-1].strip().startswith('struct '):
             rec = st[:-1].strip()[len('struct '):]
             d = self.dtor_of_cname(rec)
@@ -1154,6 +1166,89 @@ class Unit:
             r = self.models.lambda_expr(self, n)
             if r is not None: return r
         raise Unsupported('lambda (in %s)' % self.cur)
+
+    _EMIT_STATE = ('cur', 'local_names', 'capture_map', 'ret_t', 'ret_is_ref', 'ret_record', 'out', 'loop_no', 'scopes', 'call_counts',
+                   'last_calls', 'pre', 'post', 'uses_exc', 'stmt_may_throw', 'try_depth', 'try_labels', 'body_node', 'cur_self_t')
+
+    def lift_lambda(self, n):
+        """Print the lambda's operator() as a static C function `<enclosing>__lambda<k>` (lambda lifting): captured
+        variables become pointer parameters (by-copy captures too: the lifted function is only ever called while the
+        enclosing frame is live and, for the algorithm/wait helpers that use it, before the enclosing function touches
+        the variable again), a captured `this` becomes the leading `self` parameter.
+        Returns (function name, [argument texts for the captures], return ctype)."""
+        n = self.strip_tmp(n)
+        while n['kind'] in ('ImplicitCastExpr', 'CXXConstructExpr', 'MaterializeTemporaryExpr', 'CXXBindTemporaryExpr', 'CXXFunctionalCastExpr') and self.kids(n): n = self.strip_tmp(self.kids(n)[0])
+        if n['kind'] != 'LambdaExpr': raise Unsupported('expected a lambda, got %s (in %s)' % (n['kind'], self.cur))
+        rec = [c for c in n.get('inner', []) if c.get('kind') == 'CXXRecordDecl'][0]
+        op = [c for c in rec.get('inner', []) if c.get('kind') == 'CXXMethodDecl' and c.get('name') == 'operator()'][0]
+        body = [c for c in op.get('inner', []) if c.get('kind') == 'CompoundStmt'][0]
+        caps = []; uses_this = [False]
+        def walk(x):
+            if not isinstance(x, dict): return
+            if x.get('kind') == 'CXXThisExpr': uses_this[0] = True
+            if x.get('kind') == 'DeclRefExpr':
+                vid = (x.get('referencedDecl') or {}).get('id')
+                if vid in self.local_names and vid not in caps: caps.append(vid)
+            for c in x.get('inner', []) or []: walk(c)
+        walk(body)
+        self.lambda_no = getattr(self, 'lambda_no', {}); k = self.lambda_no.get(self.cur, 0); self.lambda_no[self.cur] = k + 1
+        name = '%s__lambda%d' % (self.cur, k)
+        outer = {a: getattr(self, a, None) for a in self._EMIT_STATE}
+        params = []; args = []; inner_names = {}
+        if uses_this[0]:
+            if not outer['cur_self_t']: raise Unsupported('lambda captures this outside a method (in %s)' % self.cur)
+            params.append('%s *self' % outer['cur_self_t']); args.append('self')
+        for vid in caps:
+            nm, is_ref = outer['local_names'][vid]
+            d = self.by_id.get(vid) or self.local_decls.get(vid)
+            if d is None: raise Unsupported('captured variable %s has no declaration node (in %s)' % (nm, self.cur))
+            txt, r2 = self.decl_text(d, 'cap_' + nm)
+            if '[' in txt: raise Unsupported('captured array %s (in %s)' % (nm, self.cur))
+            if is_ref:
+                params.append(txt); args.append(nm)
+            else:
+                m = re.match(r'^(.*\S)\s+(\w+)$', txt)
+                params.append('%s *%s' % (m.group(1).replace('const ', ''), m.group(2))); args.append('&' + nm)
+            inner_names[vid] = ('cap_' + nm, True)
+        oq = op['type']['qualType']
+        if '->' in oq and oq.startswith('auto '): ret_qt = oq.rsplit('->', 1)[1].strip()
+        else: ret_qt, _, _ = fn_param_types(oq)
+        rt, rref = self.ctype2(ret_qt)
+        self.cur = name; self.local_names = inner_names; self.capture_map = {}
+        self.ret_t = rt.strip(); self.ret_is_ref = rref; self.ret_record = self.ret_t.startswith('struct ') and not self.ret_t.endswith('*')
+        pi = 0
+        for pdecl in op.get('inner', []):
+            if pdecl.get('kind') == 'ParmVarDecl':
+                pn = pdecl.get('name') or '_p%d' % pi
+                txt, is_ref = self.decl_text(pdecl, pn)
+                params.append(txt); self.local_names[pdecl['id']] = (pn, is_ref); pi += 1
+        self.out = []; self.loop_no = 0; self.scopes = [{'vars': [], 'kind': 'func'}]; self.call_counts = {}; self.last_calls = []
+        self.pre = []; self.post = []; self.uses_exc = False; self.stmt_may_throw = False; self.try_depth = 0; self.try_labels = []
+        sig = 'static %s %s(%s)' % (self.ret_t, name, ', '.join(params) or 'void')
+        self.w(sig)
+        contract = self.spec.get(('contract', name))
+        if contract:
+            self.used_keys.add(('contract', name))
+            for l in contract.strip('\n').split('\n'): self.w(l)
+        self.w('{')
+        self.ghost('entry', '  ')
+        self.body_node = body
+        self.stmt(body, 1)
+        self.ghost('exit', '  ')
+        self.w('}'); self.w('')
+        text = '\n'.join(self.out)
+        for a, v in outer.items(): setattr(self, a, v)
+        self.emitted_protos[name] = sig + ';'
+        self.emitted_funcs[name] = text
+        self.func_order.append(name)
+        return name, args, rt.strip()
+
+    def add_helper(self, name, proto, text):
+        if name not in self.emitted_funcs:
+            self.emitted_protos[name] = proto + ';'
+            self.emitted_funcs[name] = text
+            self.func_order.append(name)
+        return name
 
     def e_CXXThrowExpr(self, n):
         ks = self.kids(n)
@@ -1476,7 +1571,7 @@ class Unit:
             self.local_names[v['id']] = (self.need_global(v['id']), False)
             return
         txt, is_ref = self.decl_text(v, name)
-        self.local_names[v['id']] = (name, is_ref)
+        self.local_names[v['id']] = (name, is_ref); self.local_decls[v['id']] = v
         ks = self.kids(v)
         ct = txt.rsplit(' ', 1)[0]
         if self.models and self.models.is_model_type(ct) and not is_ref and '*' not in ct:
@@ -1585,8 +1680,10 @@ class Unit:
         if is_method:
             q = self.qname[rec['id']]
             rt_self = self.resolve_named(q)
-            if rt_self is None or not rt_self.startswith('struct '): raise Unsupported('receiver type ' + q)
-            params.append('%s *self' % rt_self)
+            if rt_self is not None and rt_self.startswith('handle:'): params.append('%s self' % rt_self[len('handle:'):])
+            elif rt_self is None or not rt_self.startswith('struct '): raise Unsupported('receiver type ' + q)
+            else: params.append('%s *self' % rt_self)
+        self.cur_self_t = params[0][:-len(' *self')] if params and params[0].endswith(' *self') else None
         pi = 0
         pnames = self.spec.get(('params', name))     # a contract written on the definition's parameter names, attached to a declaration
         for pdecl in node.get('inner', []):
